@@ -630,6 +630,80 @@ func partFilter(r *rand.Rand, rounds int, stats map[string]int) (fail string, tr
 	return "", nil
 }
 
+// Part D — expired keys in the table while SCAN walks it. Whatever SCAN does about an expired key it meets
+// (skip it, reclaim it), a key that is alive from the first call to the last is returned. The layouts are
+// chosen by hash: a live key and a key that is about to expire in neighbouring buckets of a 32-bucket table,
+// and a churn key set and deleted 0..24 times before, so that one more removal is the one that lets the table
+// think about halving.
+func partExpired(r *rand.Rand, rounds int, stats map[string]int) (fail string, trace []string) {
+	byBucket := map[uint32][]string{}
+	for i := 0; i < 4000; i++ {
+		key := fmt.Sprintf("x%d", i)
+		b := revBits(5, uint32(redisemu.VerifSipHash(key))&31)
+		byBucket[b] = append(byBucket[b], key)
+	}
+	for round := 0; round < rounds; round++ {
+		for churn := 0; churn <= 24; churn += 1 + r.Intn(3) {
+			vs := redisemu.VerifNewStore("")
+			cl := vs.NewClient()
+			run := func(args ...string) []byte {
+				argv := make([][]byte, len(args))
+				for i, a := range args {
+					argv[i] = []byte(a)
+				}
+				trace = append(trace, strings.Join(args, " "))
+				if len(trace) > 400 {
+					trace = trace[len(trace)-400:]
+				}
+				reply, _ := cl.Dispatch(argv)
+				return reply
+			}
+			pair := uint32(r.Intn(16))
+			dying, live := byBucket[2*pair][0], byBucket[2*pair+1][0]
+			if r.Intn(2) == 0 {
+				dying, live = byBucket[2*pair+1][0], byBucket[2*pair][0]
+			}
+			churnKey := byBucket[(2*pair+7)%32][1]
+			run("SET", live, "stays")
+			run("SET", dying, "goes", "PX", "12")
+			for i := 0; i < churn; i++ {
+				run("SET", churnKey, "x")
+				run("DEL", churnKey)
+			}
+			time.Sleep(20 * time.Millisecond)
+			opts := [][]string{{}, {"COUNT", "1"}, {"TYPE", "string"}, {"MATCH", "x*", "COUNT", "100"}}[r.Intn(4)]
+			seen := map[string]bool{}
+			cursor := "0"
+			for calls := 0; calls < 10000; calls++ {
+				reply := string(run(append([]string{"SCAN", cursor}, opts...)...))
+				lines := strings.Split(reply, "\r\n")
+				if len(lines) < 4 || lines[0] != "*2" {
+					cl.Close()
+					return fmt.Sprintf("SCAN %s: unexpected reply %.80q", cursor, reply), trace
+				}
+				cursor = lines[2]
+				for i := 5; i < len(lines); i += 2 {
+					seen[lines[i]] = true
+				}
+				if cursor == "0" {
+					break
+				}
+			}
+			stats["expired_in_scan_iterations"]++
+			if !seen[live] {
+				cl.Close()
+				return fmt.Sprintf("a full SCAN iteration (%v) never returned %q, which was alive all along (a neighbour in the table had expired; %d removals before)", opts, live, churn), trace
+			}
+			if seen[dying] {
+				cl.Close()
+				return fmt.Sprintf("a full SCAN iteration returned the expired key %q", dying), trace
+			}
+			cl.Close()
+		}
+	}
+	return "", nil
+}
+
 func main() {
 	seed := flag.Int64("seed", 1, "seed")
 	histories := flag.Int("histories", 6, "dict histories (part A)")
@@ -674,6 +748,11 @@ func main() {
 		rounds := 1 + *iterations/40
 		if f, tr := partFilter(r, rounds, stats); f != "" {
 			report("filter", f, tr)
+		}
+	}
+	if failures == 0 && *prop != "C04" && *prop != "C05" {
+		if f, tr := partExpired(r, 1+*iterations/45, stats); f != "" {
+			report("expired", f, tr)
 		}
 	}
 	res := map[string]any{"stats": stats, "failures": failures, "wall_s": time.Since(start).Seconds(),
